@@ -75,6 +75,11 @@ func runHistories(c *ctx, which string) error {
 		n = 4000
 	}
 	hist := map[string]int{}
+	if which == "c07" {
+		if err := addAfterCommitRegression(c); err != nil {
+			return err
+		}
+	}
 	for i := 0; i < n; i++ {
 		var cfg tcfg
 		cfg.SHA256 = c.rng.Intn(4) == 0
@@ -386,5 +391,57 @@ func runHistories(c *ctx, which string) error {
 		c.emit("history", fmt.Sprintf("%s|%d|%s", cfg, b2i(!skipNameCheck), strings.Join(ops, "!")), strings.Join(obs, "!"))
 	}
 	c.stats["op_status_hist"] = hist
+	return nil
+}
+
+// A fixed history (found by the proof of the byte-level stack theorem): with 64-byte blocks
+// a 30-byte name fits only a block without the file header.  Table 2 deletes "a"; the
+// auto-compaction after that Add drops the tombstone, the long name becomes the first record
+// of the merged table and the writer refuses it.  Add must still report the committed
+// transaction as a success.
+func addAfterCommitRegression(c *ctx) error {
+	cfg := tcfg{BlockSize: 64}
+	dir := filepath.Join(c.work, "hreg0")
+	os.MkdirAll(dir, 0755)
+	defer os.RemoveAll(dir)
+	st, err := reftable.NewStack(dir, cfg.cfg())
+	if err != nil {
+		return err
+	}
+	defer st.Close()
+	ops := []hop{
+		{kind: "A", refs: []reftable.RefRecord{{RefName: "a", UpdateIndex: 1, Target: "x"}, {RefName: strings.Repeat("b", 30), UpdateIndex: 1, Target: "x"}}},
+		{kind: "A", auto: true, refs: []reftable.RefRecord{{RefName: "a", UpdateIndex: 2}, {RefName: strings.Repeat("c", 21), UpdateIndex: 2, Target: "x"}}},
+		{kind: "C", first: 0, last: 1},
+	}
+	var opss, obs []string
+	for _, o := range ops {
+		opss = append(opss, o.String())
+		status := "ok"
+		switch o.kind {
+		case "A":
+			reftable.VerifSetAutoCompact(st, o.auto)
+			o := o
+			err := st.Add(func(w *reftable.Writer) error {
+				w.SetLimits(o.refs[0].UpdateIndex, o.refs[0].UpdateIndex)
+				for k := range o.refs {
+					r := o.refs[k]
+					if err := w.AddRef(&r); err != nil {
+						return err
+					}
+				}
+				return nil
+			})
+			if err != nil {
+				status = "err"
+			}
+		case "C":
+			if ok, err := reftable.VerifCompactRange(st, o.first, o.last, nil); err != nil || !ok {
+				status = "err"
+			}
+		}
+		obs = append(obs, observe(st, dir, status))
+	}
+	c.emit("history", fmt.Sprintf("%s|%d|%s", cfg, 1, strings.Join(opss, "!")), strings.Join(obs, "!"))
 	return nil
 }
